@@ -56,6 +56,13 @@ var tickDirs = map[string]bool{
 	"lib/pkcs9/tsclient": true, "server/daemon": true, "cmdline/remotecmd": true,
 }
 
+// maps whose iteration order reaches the schedule (per directory, by the name
+// of the field or variable ranged over): the walk goes through
+// zzsimhook.MapKeys, which sorts the keys and lets the tape choose the start
+var orderedMapRanges = map[string]map[string]bool{
+	"server": {"tokens": true},
+}
+
 var skipDirs = map[string]bool{
 	".git": true, "zz_verif": true, "functest": true, "doc": true, "distro": true, "scripts": true,
 	"internal/activation": true,
@@ -258,6 +265,42 @@ func rewriteFile(rel string, src []byte) ([]byte, bool, error) {
 			}
 			edits = append(edits, edit{pos.Offset, 0, fmt.Sprintf("var %s = %s; zzk%s := zzsimhook.SelBegin(%q, %s); ",
 				strings.Join(names, ", "), strings.Join(exprs, ", "), id, fmt.Sprintf("%s:%d", rel, pos.Line), strings.Join(names, ", "))})
+			n++
+			return true
+		})
+		// range statements over the maps listed in orderedMapRanges
+		ast.Inspect(f, func(nd ast.Node) bool {
+			rs, ok := nd.(*ast.RangeStmt)
+			if !ok || rs.Tok != token.DEFINE || rs.Key == nil {
+				return true
+			}
+			name := ""
+			switch x := rs.X.(type) {
+			case *ast.SelectorExpr:
+				name = x.Sel.Name
+			case *ast.Ident:
+				name = x.Name
+			}
+			if !orderedMapRanges[dir][name] {
+				return true
+			}
+			key, ok := rs.Key.(*ast.Ident)
+			if !ok {
+				return true
+			}
+			a, b := fset.Position(rs.X.Pos()).Offset, fset.Position(rs.X.End()).Offset
+			xs := string(src[a:b])
+			pos := fset.Position(rs.Pos())
+			kname := key.Name
+			if kname == "_" {
+				kname = fmt.Sprintf("zzmk%d", pos.Line)
+			}
+			head := fmt.Sprintf("for _, %s := range zzsimhook.MapKeys(%q, %s) {", kname, fmt.Sprintf("%s:%d", rel, pos.Line), xs)
+			if v, ok := rs.Value.(*ast.Ident); ok && v.Name != "_" {
+				head += fmt.Sprintf(" %s := %s[%s];", v.Name, xs, kname)
+			}
+			lb := fset.Position(rs.Body.Lbrace).Offset
+			edits = append(edits, edit{pos.Offset, lb + 1 - pos.Offset, head})
 			n++
 			return true
 		})
